@@ -180,9 +180,28 @@ def run(prog: Program, L: Ledger) -> None:
         for seg in body:
             L.check(len(seg) == 1, "M1", "yield_moves:one-yield-per-slot", f"{rel}:{loop.lineno}", f"a slot iteration yields {len(seg)} names", "a step attempts fewer/more cycles than configured", f"{len(seg)} yields")
         if not iters:
+            tests = [(n, lab) for n, lab in path if n.kind == "test"]
+            raises = [n for n, _lab in path if n.kind == "stmt" and isinstance(n.ast, ast.Raise)]
+            if raises:
+                # an explicit error before the loop is acceptable exactly when the step could not have been carried out
+                # anyway: more forced moves than cycles, i.e. the draw of distinct slots below would raise as well
+                slot_draws = [c_ for c_ in calls_in(ym.node) if isinstance(c_.func, ast.Attribute) and c_.func.attr == "choice"
+                              and any(k_.arg == "replace" and isinstance(k_.value, ast.Constant) and k_.value.value is False for k_ in c_.keywords)
+                              and c_.args and norm(c_.args[0]) in ("self.max_cycles", "np.arange(self.max_cycles)", "range(self.max_cycles)")]
+                sizes = set()
+                for c_ in slot_draws:
+                    for a_ in list(c_.args[1:2]) + [k_.value for k_ in c_.keywords if k_.arg == "size"]:
+                        sizes.add(norm(a_))
+                t_ = tests[-1] if tests else None
+                justified = t_ is not None and t_[1] == "true" and isinstance(t_[0].ast, ast.Compare) and len(t_[0].ast.ops) == 1 \
+                    and ((isinstance(t_[0].ast.ops[0], ast.Gt) and norm(t_[0].ast.left) in sizes and norm(t_[0].ast.comparators[0]) == "self.max_cycles")
+                         or (isinstance(t_[0].ast.ops[0], ast.Lt) and norm(t_[0].ast.comparators[0]) in sizes and norm(t_[0].ast.left) == "self.max_cycles"))
+                L.check(justified, "M1", "yield_moves:raises-before-loop", f"{rel}:{raises[-1].lineno}",
+                        f"yield_moves raises before the slot loop under `{norm(t_[0].ast)[:70] if t_ else None}`, a condition other than 'more forced moves than cycles' (where the slot draw itself would fail)",
+                        "a step with due moves raises instead of attempting max_cycles moves", norm(raises[-1].ast)[:100])
+                continue
             # path leaving before the loop: must be the empty-due-list return
             empties += 1
-            tests = [(n, lab) for n, lab in path if n.kind == "test"]
             due_names = {dname} | {n_.targets[0].id for n_ in walk_no_nested(ym.node) if isinstance(n_, ast.Assign) and len(n_.targets) == 1 and isinstance(n_.targets[0], ast.Name)
                                    and isinstance(n_.value, ast.Name) and n_.value.id == dname}
             okp = bool(tests) and any(norm(tests[-1][0].ast) in (f"not {dn}", f"len({dn}) == 0", f"{dn} == []") for dn in due_names) and tests[-1][1] == "true"
